@@ -1,0 +1,105 @@
+//go:build verif
+
+package cli
+
+// Verification-only trace hook for the editor event loop (property C32 of the
+// Lean verification machinery). Compiled only with -tags verif; the normal
+// build uses the empty stubs in trace_noverif.go.
+
+import (
+	"runtime"
+	"sync"
+	"sync/atomic"
+)
+
+// VerifTraceEntry is one entry of the in-memory protocol trace.
+type VerifTraceEntry struct {
+	Label string
+	Args  []any
+}
+
+var (
+	verifTraceMu  sync.Mutex
+	verifTraceOn  bool
+	verifTraceLog []VerifTraceEntry
+)
+
+// VerifTraceJitter, when n > 0, makes roughly one in n hook calls yield the
+// processor before it writes its entry. An entry may legitimately be written
+// any time after the operation it reports, so this only widens the windows a
+// trace validator has to tolerate (and exercises that tolerance).
+func VerifTraceJitter(n uint32) { verifJitter.Store(n) }
+
+var verifJitter, verifJitterCtr atomic.Uint32
+
+// verifTrace appends one entry to the trace. The order of the entries is the
+// order in which callers acquire verifTraceMu.
+func verifTrace(label string, args ...any) {
+	if n := verifJitter.Load(); n != 0 && (verifJitterCtr.Add(1)*2654435761)>>16%n == 0 {
+		runtime.Gosched()
+	}
+	verifTraceMu.Lock()
+	if verifTraceOn {
+		verifTraceLog = append(verifTraceLog, VerifTraceEntry{label, args})
+	}
+	verifTraceMu.Unlock()
+}
+
+// VerifTraceAdd lets a test harness add its own observations (callback
+// begin/end, producer call begin/end) to the same totally ordered log. It
+// returns the index of the new entry, or -1 when tracing is off.
+func VerifTraceAdd(label string, args ...any) int {
+	verifTraceMu.Lock()
+	defer verifTraceMu.Unlock()
+	if !verifTraceOn {
+		return -1
+	}
+	verifTraceLog = append(verifTraceLog, VerifTraceEntry{label, args})
+	return len(verifTraceLog) - 1
+}
+
+// VerifTraceReset clears the trace and switches tracing on.
+func VerifTraceReset() {
+	verifTraceMu.Lock()
+	verifTraceOn = true
+	verifTraceLog = nil
+	verifTraceMu.Unlock()
+}
+
+// VerifTraceGet switches tracing off and returns the recorded trace.
+func VerifTraceGet() []VerifTraceEntry {
+	verifTraceMu.Lock()
+	defer verifTraceMu.Unlock()
+	verifTraceOn = false
+	log := verifTraceLog
+	verifTraceLog = nil
+	return log
+}
+
+// VerifLoop gives a test harness access to the unexported loop type.
+type VerifLoop struct{ lp *loop }
+
+// Flags passed to the redraw callback.
+const (
+	VerifFullRedraw  = uint(fullRedraw)
+	VerifFinalRedraw = uint(finalRedraw)
+)
+
+// NewLoopForVerif makes a fresh loop with the given callbacks.
+func NewLoopForVerif(handle func(ev any), redraw func(flag uint)) *VerifLoop {
+	lp := newLoop()
+	lp.HandleCb(func(e event) { handle(e) })
+	lp.RedrawCb(func(f redrawFlag) { redraw(uint(f)) })
+	return &VerifLoop{lp}
+}
+
+func (v *VerifLoop) Redraw(full bool)                { v.lp.Redraw(full) }
+func (v *VerifLoop) Input(ev any)                    { v.lp.Input(ev) }
+func (v *VerifLoop) Return(buffer string, err error) { v.lp.Return(buffer, err) }
+func (v *VerifLoop) Run() (string, error)            { return v.lp.Run() }
+func (v *VerifLoop) HasReturned() bool               { return v.lp.HasReturned() }
+
+// Caps returns the capacities of the input, redraw and return channels.
+func (v *VerifLoop) Caps() (input, redraw, ret int) {
+	return cap(v.lp.inputCh), cap(v.lp.redrawCh), cap(v.lp.returnCh)
+}
